@@ -137,6 +137,7 @@ class SessionManager:
         self.start_time = time.time()
         self._method_counts = defaultdict(int)
         self._reorg_count = 0
+        self._notify_count = 0
         self._history_cache = pylru.lrucache(1000)
         self._history_lookups = 0
         self._history_hits = 0
@@ -828,7 +829,13 @@ class SessionManager:
             result = self._history_cache[hashX]
             self._history_hits += 1
         except KeyError:
-            result = await self.db.limited_history(hashX, limit=limit)
+            # Ensure the history is fresh before placing it in the cache: a block or reorg
+            # notified whilst it was being read may have made it stale
+            while True:
+                notify_count = self._notify_count
+                result = await self.db.limited_history(hashX, limit=limit)
+                if notify_count == self._notify_count:
+                    break
             cost += 0.1 + len(result) * 0.001
             if len(result) >= limit:
                 result = RPCError(BAD_REQUEST, 'history too large', cost=cost)
@@ -841,6 +848,7 @@ class SessionManager:
     async def _notify_sessions(self, height, touched):
         '''Notify sessions about height changes and touched addresses.'''
         height_changed = height != self.notified_height
+        self._notify_count += 1
         if height_changed:
             await self._refresh_hsub_results(height)
         # Invalidate our history cache for touched hashXs.  A reorg can touch histories
